@@ -10,6 +10,7 @@ import drv_heap
 import drv_epoch
 import drv_curvefit
 import drv_interp
+import drv_finders
 
 YMIN, YMAX = -4712, 6000
 
@@ -372,4 +373,35 @@ def plan_C12(tier, seed):
                      "for smooth (non-polynomial) data only the interval clause is asserted, with limits at nodes"])
 
 
-PLANS = {"C12": plan_C12, "C17": plan_C17, "C02": plan_C02, "C03": plan_C03, "C04": plan_C04, "C10": plan_C10, "C01": plan_C01, "C16": plan_C16, "C19": plan_C19}
+def _nt_c13(ev):
+    if ev["k"] == "q":
+        return (ev["f"], ev["v"], round(ev["rf"], 3)) if ev["oc"] == "ok" else (ev["f"], ev["v"], "refused", ev["y"])
+    return (ev["f"], ev["v"], "ev", round(ev["rf"], 3))
+
+
+def plan_C13(tier, seed):
+    T = ("Trace_Finders", "Trace.cfg")
+    fl = drv_finders.finder_list()
+    eras, per_era, nev, ngroups = (3, 12, 6, 28) if tier == "quick" else (40, 25, 120, 56)
+    groups = [fl[i::ngroups] for i in range(ngroups)]
+    sh = [Shard("grp_%02d" % i, drv_finders.gen_group,
+                dict(items=g, seed=seed, eras=eras, per_era=per_era, edge=True, nev=nev), *T)
+          for i, g in enumerate(groups) if g]
+    return dict(
+        mc=[MC("MC_Finder", "MC_Finder.cfg", workers=4, heap="2g", note="abstract nearest-event finder: protocol laws hold for every query sequence on a grid")],
+        shards=sh, level="model_checking", exhaustive=False, nontrivial=_nt_c13,
+        rule="All 56 finder variants the library offers (8 synodic kinds x planets, perihelion/aphelion, ascending/descending node). "
+             "Per variant: queries at 1/20-period steps plus random ones over `eras` windows of `per_era` periods spread across "
+             "-2000..4000 (sorted), and +-2 periods around both ends of the validity range; TLC checks along each trace: never "
+             "backwards, consecutive distinct results one period apart within the period's natural variation, result within one "
+             "period of the query, ValueError outside -2000..4000, totality inside. Event reality: for sampled events the "
+             "library's own VSOP87 positions at r, r+-tol, r+-2tol (tol = 1 d Mercury-Mars, 2 d beyond) must show the defining "
+             "sign change / extremum inside the stencil, the reported elongation within 0.1 deg, inferior vs superior, east vs west. "
+             "Distinct case = distinct returned event (or refused query year) per finder variant.",
+        assumptions=["period constants and admissible gap ratios are constants of Finders.tla (Meeus' mean periods; ratio bounds = twice the "
+                     "variation observed on the pinned tree, at least 1 %): a skipped event doubles a gap",
+                     "years -2000 and 4000 themselves are treated as unspecified edge years for the range clause",
+                     "Earth.passage_nodes has no event-reality clause: the Earth's heliocentric latitude of date is identically ~0"])
+
+
+PLANS = {"C13": plan_C13, "C12": plan_C12, "C17": plan_C17, "C02": plan_C02, "C03": plan_C03, "C04": plan_C04, "C10": plan_C10, "C01": plan_C01, "C16": plan_C16, "C19": plan_C19}
